@@ -673,7 +673,11 @@ func init() {
 		g.vm.ex.stubsUsed["rand.Read"]++
 		b := a[0].([]Value)
 		for i := range b {
-			b[i] = g.vm.freshInput(fmt.Sprintf("rand.Read[%d]", i), 8, false)
+			if g.vm.cfg.SymRand {
+				b[i] = g.vm.freshInput(fmt.Sprintf("rand.Read[%d]", i), 8, false)
+			} else {
+				b[i] = mkInt(uint64(0x11 * (i + 1) & 0xff))
+			}
 		}
 		return Tuple{mkInt(uint64(len(b))), nilErr()}
 	}
